@@ -27,7 +27,7 @@ CONSTANTS
   NStores,       \* device store ids 1..NStores
   MaxBytes,      \* largest device allocation generated (bytes)
   HostInit,      \* initial contents of the host array (store 0); <<>> = no host array
-  ESizes,        \* dtype sizes generated (subset of {1,2,4})
+  ESizes,        \* dtype sizes generated (subset of 1..8; 3 = char3, 8 = double)
   NStamps,       \* number of distinct data stamps  (the data written by the k-th call)
   PatMod,        \* data bytes are 1..PatMod
   Dom(_),        \* argument domain for offsets/counts of single-view calls, given the element count
@@ -294,7 +294,8 @@ D2DCnts(wd, ws, from, doff, soff) ==
                          r == IF r1 < r2 THEN r1 ELSE r2
                      IN IF r < 0 THEN 0 ELSE r
                 ELSE 1
-  IN IF wd.init /\ ws.init THEN {DEFAULT, -2, 0, 1, room, room + 1, HUGE}
+  IN IF wd.init /\ ws.init THEN (IF doff < 0 \/ soff < 0 THEN {0, 1}       \* hopeless anyway: two counts
+                                  ELSE {DEFAULT, -2, 0, 1, room, room + 1, HUGE})
      ELSE IF wd.init \/ ws.init THEN {DEFAULT, 0, 1}
      ELSE {DEFAULT, 1}
 D2DArgs(wd, ws, from) ==
@@ -347,7 +348,7 @@ Bytes == (1..PatMod) \cup {U} \cup {HostInit[i] : i \in DOMAIN HostInit}
 TypeOK ==
   /\ \A v \in 1..NViews :
        LET w == view[v] IN
-         /\ w.init \in BOOLEAN /\ w.st \in 0..NStores /\ w.off \in Nat /\ w.len \in Nat /\ w.esz \in {1, 2, 4}
+         /\ w.init \in BOOLEAN /\ w.st \in 0..NStores /\ w.off \in Nat /\ w.len \in Nat /\ w.esz \in 1..8
          /\ ~w.init => w = Uninit
   /\ \A s \in 0..NStores : \A i \in DOMAIN mem[s] : mem[s][i] \in Bytes
   /\ k \in 0..(NStamps - 1)
